@@ -53,6 +53,7 @@ func Files(files map[string]string) scriggo.Files {
 
 // Opts bundles build and run options.
 type Opts struct {
+	PrintLikeGo bool // RunTemplate: format printed values as RunProgram does (as gc's print)
 	Globals  native.Declarations
 	Vars     map[string]any
 	Packages native.Importer
@@ -95,7 +96,13 @@ func RunTemplate(t *scriggo.Template, o Opts) (res Result) {
 	}()
 	ro := &scriggo.RunOptions{Context: o.Ctx}
 	if !o.NoPrint {
-		ro.Print = func(v any) { fmt.Fprint(&printed, v) }
+		ro.Print = func(v any) {
+			if o.PrintLikeGo {
+				printed.WriteString(FormatPrint(v))
+			} else {
+				fmt.Fprint(&printed, v)
+			}
+		}
 	}
 	var w io.Writer = &out
 	if o.Writer != nil {
